@@ -342,6 +342,7 @@ class ConsoleThreadLocals(threading.local):
     theme_stack: ThemeStack
     buffer: List[Segment] = field(default_factory=list)
     buffer_index: int = 0
+    capture_starts: List[int] = field(default_factory=list)
 
 
 class RenderHook(ABC):
@@ -611,6 +612,7 @@ class Console:
     def begin_capture(self) -> None:
         """Begin capturing console output. Call :meth:`end_capture` to exit capture mode and return output."""
         self._enter_buffer()
+        self._thread_locals.capture_starts.append(len(self._buffer))
 
     def end_capture(self) -> str:
         """End capture mode and return captured string.
@@ -618,8 +620,11 @@ class Console:
         Returns:
             str: Console output.
         """
-        render_result = self._render_buffer(self._buffer)
-        del self._buffer[:]
+        # only what was printed since the matching begin_capture belongs to this capture
+        capture_starts = self._thread_locals.capture_starts
+        start = capture_starts.pop() if capture_starts else 0
+        render_result = self._render_buffer(self._buffer[start:])
+        del self._buffer[start:]
         self._exit_buffer()
         return render_result
 
